@@ -150,6 +150,13 @@ def run(ctx):
                 tasks.append((base, m, (base,)))
                 tasks.append((m, base, (m,)))
                 extra.update((base, m))
+        if allpairs and len(g) <= 4:
+            # small groups: every chain of three members
+            for a in g:
+                for b in g:
+                    if a != b:
+                        tasks.append((a, b, tuple(x for x in g if x != b)))
+            extra.update(g)
     if extra:
         schemax.family_built(ctx, sorted(set(fam) | set(fam2) | {'empty'}
                                          | extra))
